@@ -51,14 +51,14 @@ func (f *Isqrt) Call(s *slip.Scope, args slip.List, depth int) (result slip.Obje
 		if (*big.Int)(ta).Sign() < 0 {
 			slip.ArithmeticPanic(s, depth, f, args, "only non-negative values are allowed")
 		}
-		result = (*slip.Bignum)(new(big.Int).Sqrt((*big.Int)(ta)))
+		result = reduceInteger(new(big.Int).Sqrt((*big.Int)(ta)))
 	case *slip.LongFloat:
 		if (*big.Float)(ta).Sign() < 0 {
 			slip.ArithmeticPanic(s, depth, f, args, "only non-negative values are allowed")
 		}
 		var z big.Int
 		bi, _ := new(big.Float).Sqrt((*big.Float)(ta)).Int(&z)
-		result = (*slip.Bignum)(bi)
+		result = reduceInteger(bi)
 	case slip.Real:
 		rv := ta.RealValue()
 		if rv < 0.0 {
